@@ -1373,3 +1373,104 @@ Proof.
   intros Hinv. unfold o_chdir. destruct (ofind s (oabs s dir)) as [[c cn]|]; [|exact Hinv].
   destruct (on_dir cn); [|exact Hinv]. cbn [fst]. apply inv_with_cwd. exact Hinv.
 Qed.
+
+(* ---- Rename -------------------------------------------------------------------------------------------------- *)
+Lemma ofind_Fi s cs i n : ofind s (rpath cs) = Some (i, n) -> Fi (o_index s) cs = Some i /\ oget (o_heap s) i = Some n.
+Proof. intros H. apply ofind_some in H. exact H. Qed.
+
+Lemma step_rename s oldname newname : orefa_inv s -> orefa_inv (fst (o_rename s oldname newname)).
+Proof.
+  intros Hinv. pose proof (inv_h _ Hinv) as Hh. unfold o_rename.
+  destruct (oabs_shape s oldname Hinv) as (ocs & Hocs & Eo). destruct (oabs_shape s newname Hinv) as (ncs & Hncs & En).
+  rewrite Eo, En, (inv_os _ Hinv).
+  assert (Hw : owin s = false) by (unfold owin; rewrite (inv_os _ Hinv); reflexivity). rewrite Hw.
+  destruct (ofind_root s Hh) as (rn & Hr1 & Hr2 & Hrd).
+  destruct (abs_path_split ocs Hocs) as [(-> & Eo1 & Eo2)|(ops & on & -> & Hops & Hon & Eo1 & Eo2)]; rewrite Eo2;
+    destruct (abs_path_split ncs Hncs) as [(-> & En1 & En2)|(nps & nn & -> & Hnps & Hnn & En1 & En2)]; rewrite En2.
+  - (* the root onto the root *)
+    change (abs_path (@nil str)) with [SLASH]. rewrite Hr2, Hr1, Hrd. cbn [negb orb]. exact Hinv.
+  - (* the root to another name *)
+    change (abs_path (@nil str)) with [SLASH]. rewrite Hr2, Hr1.
+    destruct (ofind s (rpath nps)) as [[np npn]|]; [|rewrite Hrd; exact Hinv].
+    rewrite Hrd. cbn [negb orb]. destruct (on_dir npn); [|exact Hinv]. cbn [negb].
+    destruct (match ofind s (abs_path (nps ++ [nn])) with Some (_, nn0) => on_dir nn0 | None => false end); [exact Hinv|].
+    rewrite Nat.eqb_refl. cbn [andb orb]. exact Hinv.
+  - (* onto the root *)
+    change (abs_path (@nil str)) with [SLASH].
+    destruct (ofind s (rpath ops)) as [[op opn]|]; [|exact Hinv]. rewrite Hr2.
+    destruct (ofind s (abs_path (ops ++ [on]))) as [[oc ocn]|].
+    + destruct (negb (on_dir opn) || negb (on_dir rn)); [exact Hinv|]. rewrite Hr1, Hrd. exact Hinv.
+    + destruct (negb (on_dir opn) || negb (on_dir rn)); exact Hinv.
+  - (* the general case *)
+    rewrite Eo1, En1. change (sepc Linux) with SLASH.
+    destruct (ofind s (rpath ops)) as [[op opn]|] eqn:Eop; [|exact Hinv].
+    destruct (ofind s (rpath nps)) as [[np npn]|] eqn:Enp; [|destruct (negb (on_dir opn)); exact Hinv].
+    destruct (ofind s (rpath (ops ++ [on]))) as [[oc ocn]|] eqn:Eoc;
+      [|destruct (negb (on_dir opn) || negb (on_dir npn)); exact Hinv].
+    destruct (on_dir opn) eqn:Eopd; [|exact Hinv]. destruct (on_dir npn) eqn:Enpd; [|exact Hinv]. cbn [negb orb].
+    apply ofind_Fi in Eop. destruct Eop as [HFop Hop]. apply ofind_Fi in Enp. destruct Enp as [HFnp Hnp].
+    apply ofind_Fi in Eoc. destruct Eoc as [HFoc Hoc].
+    set (old := ops ++ [on]) in *. set (new := nps ++ [nn]) in *.
+    assert (Hgo : gcs old) by (apply gcs_snoc; assumption).
+    assert (Hgn : gcs new) by (apply gcs_snoc; assumption).
+    assert (Hone : old <> []) by (unfold old; destruct ops; discriminate).
+    assert (Hnne : new <> []) by (unfold new; destruct nps; discriminate).
+    destruct (ofind s (rpath new)) as [[nc ncn]|] eqn:Enc.
+    + (* the new name exists *)
+      apply ofind_Fi in Enc. destruct Enc as [HFnc Hncn].
+      destruct (on_dir ncn) eqn:Encd; [exact Hinv|].
+      destruct (on_dir ocn) eqn:Eocd.
+      * cbn [andb]. destruct (Nat.eqb oc op || is_prefix (rpath old ++ [SLASH]) (rpath new)); exact Hinv.
+      * cbn [andb]. destruct (Nat.eqb_spec nc oc) as [Eq|Hncoc]; [exact Hinv|]. cbn [fst].
+        assert (Hleaf_o : forall c', Ch (o_heap s) oc c' = None).
+        { intros c'. unfold Ch. rewrite Hoc, (hi_leaf _ _ Hh _ _ Hoc Eocd). reflexivity. }
+        assert (Hleaf_n : forall c', Ch (o_heap s) nc c' = None).
+        { intros c'. unfold Ch. rewrite Hncn, (hi_leaf _ _ Hh _ _ Hncn Encd). reflexivity. }
+        assert (Hon' : old <> new) by (intros E; rewrite E in HFoc; congruence).
+        assert (Hbo : forall c r, gcs (c :: r) -> Fi (o_index s) (old ++ c :: r) = None).
+        { intros c r Hcr. apply (Fi_below_leaf _ _ old oc c r Hh Hgo Hcr HFoc Hleaf_o). }
+        assert (Hbn : forall c r, gcs (c :: r) -> Fi (o_index s) (new ++ c :: r) = None).
+        { intros c r Hcr. apply (Fi_below_leaf _ _ new nc c r Hh Hgn Hcr HFnc Hleaf_n). }
+        assert (Hnb : forall r, new <> old ++ r).
+        { intros r E. destruct r as [|c r]; [rewrite app_nil_r in E; congruence|].
+          assert (Hcr : gcs (c :: r)). { rewrite E in Hgn. apply Forall_app in Hgn. apply Hgn. }
+          rewrite E in HFnc. rewrite (Hbo c r Hcr) in HFnc. discriminate. }
+        apply inv_with; [exact Hinv|].
+        apply (hinv_move (o_index s) _ (o_heap s) ops on nps nn op oc ocn np npn (Some nc)); try assumption.
+        -- intros j [= <-]. split; [exact Hncoc|]. exists ncn. auto.
+        -- apply (move_spec_file _ (o_heap s)); assumption.
+    + (* the new name is free *)
+      cbn [andb]. apply (ofind_none _ _ Hh) in Enc. change (Fi (o_index s) new = None) in Enc.
+      destruct (on_dir ocn) eqn:Eocd; cbn [andb].
+      * destruct (Nat.eqb oc op || is_prefix (rpath old ++ [SLASH]) (rpath new)) eqn:Eg; [exact Hinv|]. cbn [fst].
+        apply orb_false_iff in Eg. destruct Eg as [_ Epre].
+        assert (Hnb : forall r, new <> old ++ r).
+        { intros r E. destruct r as [|c r]; [rewrite app_nil_r in E; rewrite E in Enc; congruence|].
+          assert (Ht : is_prefix (rpath old ++ [SLASH]) (rpath new) = true).
+          { apply is_prefix_rpath; [apply gcs_ok; exact Hgo|apply gcs_ok; exact Hgn|]. exists c, r. exact E. }
+          congruence. }
+        apply inv_with; [exact Hinv|].
+        apply (hinv_move (o_index s) _ (o_heap s) ops on nps nn op oc ocn np npn None); try assumption.
+        -- intros j [=].
+        -- apply (move_spec_dir _ (o_heap s)); assumption.
+      * cbn [fst].
+        assert (Hleaf_o : forall c', Ch (o_heap s) oc c' = None).
+        { intros c'. unfold Ch. rewrite Hoc, (hi_leaf _ _ Hh _ _ Hoc Eocd). reflexivity. }
+        assert (Hon' : old <> new) by (intros E; rewrite E in HFoc; congruence).
+        assert (Hbo : forall c r, gcs (c :: r) -> Fi (o_index s) (old ++ c :: r) = None).
+        { intros c r Hcr. apply (Fi_below_leaf _ _ old oc c r Hh Hgo Hcr HFoc Hleaf_o). }
+        assert (Hbn : forall c r, gcs (c :: r) -> Fi (o_index s) (new ++ c :: r) = None).
+        { intros c r Hcr. apply (Fi_below_none _ _ new c r Hh Hgn Hcr Enc). }
+        assert (Hnb : forall r, new <> old ++ r).
+        { intros r E. destruct r as [|c r]; [rewrite app_nil_r in E; congruence|].
+          unfold new in E. destruct (snoc_eq_app _ _ _ _ E) as [[E1 _]|(r' & Er & Enps)]; [discriminate|].
+          destruct r' as [|c2 r2].
+          - rewrite app_nil_r in Enps. rewrite Enps in HFnp. rewrite HFoc in HFnp. inversion HFnp; subst np.
+            rewrite Hoc in Hnp. inversion Hnp; subst. congruence.
+          - assert (Hcr : gcs (c2 :: r2)). { rewrite Enps in Hnps. apply Forall_app in Hnps. apply Hnps. }
+            rewrite Enps in HFnp. rewrite (Hbo c2 r2 Hcr) in HFnp. discriminate. }
+        apply inv_with; [exact Hinv|].
+        apply (hinv_move (o_index s) _ (o_heap s) ops on nps nn op oc ocn np npn None); try assumption.
+        -- intros j [=].
+        -- apply (move_spec_file _ (o_heap s)); assumption.
+Qed.
